@@ -120,9 +120,7 @@ pub fn use_message(ctx: &mut Ctx, m: &Message, input: &[u8], tag: &'static str) 
 
 fn parse_modes(ctx: &mut Ctx, mon: &M, b: &[u8], wsh: bool, class: &'static str, ops: &[&'static str]) {
     // a random configuration per case: empty / duplicate / over-long ids, counts at the i64 extremes
-    let lvl = crate::filtergen::gen_level(&mut ctx.rng);
-    let rand_cfg = crate::filtergen::gen_filter(&mut ctx.rng, lvl);
-    let rand_filter: ProcessedDltFilterConfig = if ctx.rng.chance(1, 2) { (&rand_cfg).into() } else { rand_cfg.clone().into() };
+    let (rand_filter, rand_cfg) = crate::filtergen::gen_processed(&mut ctx.rng);
     let modes: [(bool, u8, &'static str); 5] = [
         (wsh, 0, "dlt_message"),
         (wsh, 1, "dlt_message+keep_filter"),
@@ -146,7 +144,7 @@ fn parse_modes(ctx: &mut Ctx, mon: &M, b: &[u8], wsh: bool, class: &'static str,
                 .set("input_len", b.len())
                 .set("with_storage_header", *mode_wsh)
                 .set("filter", *filt)
-                .set("random_filter_config", if *filt == 3 { format!("{:?}", rand_cfg) } else { String::new() })
+                .set("random_filter_config", if *filt == 3 { rand_cfg.clone() } else { String::new() })
                 .set("class", class)
                 .set("operators", ops.join("+"))
                 .set("got", got)
